@@ -235,6 +235,20 @@ func (s *Sim) drain(all bool, only int) {
 	}
 }
 
+// drainBefore dispatches buffered messages as long as the head is not one that
+// subscriber i (about to be added) received.
+func (s *Sim) drainBefore(i int) {
+	for s.Stuck == "" {
+		if s.progress() {
+			continue
+		}
+		if len(s.dist) == 0 || s.wants(i, s.dist[0]) || s.idleWorker() < 0 {
+			return
+		}
+		s.takeHead("drain before subscribe")
+	}
+}
+
 // anyWantsUpTo: subscriber i still expects some buffered message.
 func (s *Sim) anyWantsUpTo(i int) bool {
 	for _, m := range s.dist {
@@ -258,6 +272,8 @@ func (s *Sim) Feed(ev CtlEv) {
 	}
 	switch ev.Op {
 	case "sub":
+		// every dispatch the new subscriber did not take part in ends before the Ensure
+		s.drainBefore(ev.I)
 		k := s.caller
 		s.caller++
 		s.emit("ECall %d (OpSub %d)", k, ev.I)
